@@ -1,6 +1,6 @@
 (* C04 — saving a document and loading it back reproduces the document. *)
 From Odf Require Import model.Base model.Chars model.XmlLex model.XmlTree model.Doc model.Inst model.LoadStyles model.Load model.LoadInst
-  gen.GenNs proofs.XmlRoundTrip proofs.DocProofs proofs.LoadProofs proofs.LoadRoundTrip.
+  gen.GenNs proofs.XmlRoundTrip proofs.DocProofs proofs.AutoStylesExact proofs.LoadProofs proofs.LoadRoundTrip proofs.SecondGen.
 
 (* d: a document as its eight sections (office:* elements without attributes holding elements only: sections_ok);
    i_contentxml / i_stylesxml / i_metaxml / i_settingsxml: the renderers (byte-exact models, C01/C12); xml_parse: a conforming
@@ -30,6 +30,28 @@ Print Assumptions C04_load_of_parts.
 Theorem C04_generator : forall d, sections_ok d -> count_gen (d_meta (expected d)) = 1%nat.
 Proof. exact one_generator. Qed.
 Print Assumptions C04_generator.
+
+(* the second generation: for a document that is already what a parser delivers (canonical), whose two parts use automatic
+   styles of different names (none is needed by both), the loaded document is d with its metadata normalised and its used
+   automatic styles (reloaded d), and saving it gives the four parts of the first package again, byte for byte *)
+Theorem C04_loaded_is_reloaded : forall d, sections_ok d -> canonical d -> NoDup (keys (used_c d ++ used_s d)) -> finish (expected d) = reloaded d.
+Proof. exact finish_expected. Qed.
+Print Assumptions C04_loaded_is_reloaded.
+Theorem C04_second_generation : forall env d,
+  (forall e e', In e (used_c d) -> In e' (used_s d) -> style_name e = style_name e' -> style_name e = None) ->
+  i_contentxml env (reloaded d) = i_contentxml env d /\ i_stylesxml env (reloaded d) = i_stylesxml env d /\
+  i_settingsxml env (reloaded d) = i_settingsxml env d /\ snd (i_metaxml env (reloaded d)) = snd (i_metaxml env d) /\
+  has_kids (d_settings (reloaded d)) = has_kids (d_settings d).
+Proof. exact second_generation. Qed.
+Print Assumptions C04_second_generation.
+
+(* the names collected when automatic styles are selected are exactly the closure of the references (any segments, any styles) *)
+Theorem C04_selection_exact : forall segs auto, exists sel names,
+  used_auto_styles RA segs auto = pick (kids_of auto) sel /\ List.length sel = List.length (kids_of auto) /\
+  (forall x, mem_str x names = true <-> Reach RA (roots_of RA segs) (kids_of auto) x) /\
+  (forall i e, nth_error (kids_of auto) i = Some e -> (nth i sel false = true <-> is_element e = true /\ named_in names e = true)).
+Proof. exact (used_exact RA). Qed.
+Print Assumptions C04_selection_exact.
 
 (* attaching a subtree in which nothing clashes leaves it as it is: any tree without CDATA sections, any depth *)
 Theorem C04_attach_identity : forall redirected t st pq, ls_fix st = [] -> nocdata t = true -> NoDup (ls_names st ++ reg_names pq t) ->
